@@ -9,8 +9,8 @@ The observer theorems of C09 / C02 (`C09_observers`, `*_in_declared_space`, `Obs
 `PacmanSim`: an ACTIVE agent that is stored in no cell (refused teleport) still shades the mask of every observer from a
 cell on which nobody stands, which no `WInv` world with the same cells does.  What the proofs use of `WInv` is: whoever is
 stored in a cell is an agent of the simulation, no cell holds an id twice, the ammunition of the observer is legal — all
-of it part of `WInvFloat`.  The theorems below are the SAME proofs (generated from the originals by `tools`-free text
-substitution: the hypothesis and the three cell lemmas), suffix `_float`.
+of it part of `WInvFloat`.  The theorems below are the SAME proofs as the originals (copied; only the hypothesis and the
+cell lemmas `cell_of_WInv` / `cell_length_le` are replaced by their `WInvFloat` versions), suffix `_float`.
 -/
 namespace Abmarl
 namespace Observers
